@@ -581,6 +581,10 @@ func init() {
 			c.Input("b", bText)
 			c.Input("metadata", m.Name)
 			want := v1Oracle(a, b, m)
+			if len(m.Flags) == 0 && i%8 == 0 {
+				m.Flags = []string{"-set=false", "-mset=false"} // flags given with a false value are flags not given
+				c.Feature("cli_v1_false_flags")
+			}
 			res := RunCLI(c, BinTopV1, append(append([]string{}, m.Flags...), "a.json", "b.json"), "", map[string]string{"a.json": aText, "b.json": bText})
 			wantStatus := 1
 			if want {
